@@ -151,6 +151,23 @@ example : (doprnt "%d<%Zx>%s".toList [.int 7, .mpz 255, .str "z".toList]).map (f
     some [.format ['7', '<'], .memory ['f', 'f'], .format ['>', 'z']] := by decide +kernel
 
 
+/-- `doprnti_big_layout_length`: consequences of `doprnti_big_layout` for values of any size: the output is
+    max (width, sign + prefix + precision zeros + digits) bytes long, and when the width does not exceed
+    that, it is exactly the sign followed by prefix, zeros and the mpz_get_str digits (no padding at all). -/
+theorem doprnti_big_layout_length (fl : List Char) (w : WidthArg) (p : PrecArg) (conv : Conv) (v : Int)
+    (hp : p ≠ .dot) (hx : ¬ ('#' ∈ fl ∧ cPrec p = some 0 ∧ v = 0 ∧ conv.base = 16)) :
+    let sign := signChars (cFlags fl w) (decide (v < 0))
+    let body := layoutBody (cFlags fl w) (cPrec p) conv.base conv.upper v.natAbs
+    (layoutModel fl w p conv v).length = max (cWidth w) (sign.length + body.length) ∧
+    (cWidth w ≤ sign.length + body.length → layoutModel fl w p conv v = sign ++ body) := by
+  rw [doprnti_big_layout fl w p conv v hp hx]
+  exact layoutCore_length _ _ _ _ _ _ _
+
+-- non-vacuity: 2^64 with width 5 is the 20 digits alone; with width 25 it is 25 bytes
+example : (layoutModel [] (.num 5) .none .d (2 ^ 64)).length = 20 ∧ (layoutModel ['-'] (.num 25) .none .d (2 ^ 64)).length = 25 := by
+  decide +kernel
+
+
 end Mpir.Printf
 
 namespace Mpir.Scanf
